@@ -2,6 +2,35 @@
 #define FASTSCAPELIB_UTILS_IMPL_THREAD_POOL_INL_HPP
 
 
+#ifdef FASTSCAPELIB_VERIF_HOOKS
+#include <atomic>
+#include <cstddef>
+namespace fastscapelib
+{
+    namespace verif
+    {
+        // schedule points for the verification harness (compiled in only with
+        // -DFASTSCAPELIB_VERIF_HOOKS): the harness installs a callback that may delay the calling
+        // thread at a given point; the library's behaviour is otherwise unchanged
+        using hook_type = void (*)(int point, std::size_t who);
+        inline std::atomic<hook_type>& hook()
+        {
+            static std::atomic<hook_type> h{ nullptr };
+            return h;
+        }
+        inline void point(int id, std::size_t who)
+        {
+            hook_type f = hook().load();
+            if (f)
+                f(id, who);
+        }
+    }
+}
+#define FS_VERIF_POINT(id, who) ::fastscapelib::verif::point(id, who)
+#else
+#define FS_VERIF_POINT(id, who)
+#endif
+
 namespace fastscapelib
 {
     template <class T>
@@ -33,7 +62,9 @@ namespace fastscapelib
             {
                 std::unique_lock<std::mutex> lk(m_cv_m);
                 ++m_paused_count;
+                FS_VERIF_POINT(1, i);
                 m_cv.wait(lk);
+                FS_VERIF_POINT(2, i);
                 --m_paused_count;
             };
     }
@@ -60,7 +91,11 @@ namespace fastscapelib
 
         for (std::size_t i = 0; i < m_size; ++i)
             if ((*p_jobs)[i] != nullptr)
+            {
+                FS_VERIF_POINT(7, i);
                 m_has_job[i].store(1, std::memory_order_relaxed);
+            }
+        FS_VERIF_POINT(8, m_size);
     }
 
     /////////////////////////////////////////////////////////////////////////////////////////
@@ -77,6 +112,7 @@ namespace fastscapelib
 
             while (m_paused_count != m_size)
             {
+                FS_VERIF_POINT(9, m_size);
             }
         }
     }
@@ -88,7 +124,9 @@ namespace fastscapelib
     {
         if (m_paused)
         {
+            FS_VERIF_POINT(3, m_size);
             m_cv.notify_all();
+            FS_VERIF_POINT(4, m_size);
             m_paused = false;
             wait();
         }
@@ -122,6 +160,7 @@ namespace fastscapelib
     {
         while (!was_empty())
         {
+            FS_VERIF_POINT(10, m_size);
         }
     }
 
@@ -176,7 +215,9 @@ namespace fastscapelib
                         {
                             if (m_has_job[i].load(std::memory_order_relaxed))
                             {
+                                FS_VERIF_POINT(5, i);
                                 (*p_jobs)[i]();
+                                FS_VERIF_POINT(6, i);
                                 m_has_job[i].store(0, std::memory_order_relaxed);
                             }
                         }
